@@ -595,6 +595,9 @@ def execute(h):
     def sweep(step):
         vec = []
         for ci, conv in enumerate(convs):
+            if conv.base_currency is not curs[
+                    cfg['convs'][ci]['base'] % n_cur]:
+                violate('sweep', 'base_currency_changed', step, conv=ci)
             for d in probe_dates:
                 for a in range(len(curs)):
                     for b in range(len(curs)):
@@ -772,7 +775,10 @@ def execute(h):
                     cobj = curs[cur] if how == 'obj' else curs[cur].symbol
                     if how == 'sym':
                         bump(probes, 'currency_given_by_symbol')
-                    lib_specs.append((cobj, mk_amount(amt), mk_um(um)))
+                    one = (cobj, mk_amount(amt), mk_um(um))
+                    # a rate spec is any 3-element iterable
+                    lib_specs.append(list(one) if (cur + i) % 3 == 0
+                                     else one)
                 must_accept = model.update(op[2], specs)
                 # rate_specs is documented as an Iterable: hand it over as
                 # list, tuple, iterator or generator
